@@ -148,6 +148,10 @@ def combos2 {α : Type} : List α → List (α × α)
   | [] => []
   | x :: xs => xs.map (fun y => (x, y)) ++ combos2 xs
 
+/-- `itertools.product(a, b)`: pairs, the first coordinate varies slowest -/
+def product2 {α β : Type} (a : List α) (b : List β) : List (α × β) :=
+  a.flatMap (fun x => b.map (fun y => (x, y)))
+
 /-! ### `None` -/
 
 /-- using a possibly-`None` value where a number / sequence is needed: TypeError on `None` -/
